@@ -4,6 +4,7 @@ undo.  Prints one line per change; exit 1 if a change is no longer detected.  (N
 working tree while it runs and restores it afterwards.)"""
 import json, os, subprocess, sys, time
 root = os.path.dirname(os.path.dirname(os.path.abspath(__file__)))
+REPO = os.environ.get('SEED_REPO', '/repo')      # a private clone when the checks of this copy of /verif were pointed at one
 ids = sys.argv[1:] or sorted(os.listdir('/verif/seeded'))
 missed = []
 for sid in ids:
@@ -16,7 +17,7 @@ for sid in ids:
         det = json.load(open(mp)).get('detected_by') or []
         if det and prop not in det:
             prop = det[0]          # caught by a neighbouring property's check only (recorded in DESIGN.md)
-    r = subprocess.run(['git', '-C', '/repo', 'apply', pd], stdout=subprocess.PIPE, stderr=subprocess.STDOUT, text=True)
+    r = subprocess.run(['git', '-C', REPO, 'apply', pd], stdout=subprocess.PIPE, stderr=subprocess.STDOUT, text=True)
     if r.returncode != 0:
         print(sid, 'APPLY-FAILED', r.stdout[-200:])
         missed.append(sid)
@@ -25,7 +26,7 @@ for sid in ids:
     try:
         c = subprocess.run(['./check', prop, '--tier', 'quick'], cwd=root, stdout=subprocess.PIPE, stderr=subprocess.STDOUT, text=True)
     finally:
-        subprocess.run(['git', '-C', '/repo', 'checkout', '--', '.'])
+        subprocess.run(['git', '-C', REPO, 'checkout', '--', '.'])
     nv = sum(1 for l in c.stdout.splitlines() if l.startswith('VIOLATION'))
     print('%s exit=%d violations=%d %.0fs' % (sid, c.returncode, nv, time.time() - t0), flush=True)
     if c.returncode != 1:
